@@ -791,6 +791,17 @@ class Evaluator:
                 return Const(None)
             if name == "finalize":
                 return App("hash", (recv.args[0], mk_cat(recv.args[1:]) if len(recv.args) > 1 else Const(b"")), e)
+        # bytearray accumulator: append(n) / extend(b) grow the content
+        if isinstance(recv, App) and recv.op == "bytearray" and name in ("append", "extend") and len(args) == 1 and isinstance(e.func.value, ast.Name):
+            x = args[0]
+            if name == "append":
+                piece = Const(bytes([x.v])) if isinstance(x, Const) and isinstance(x.v, int) and 0 <= x.v < 256 else App("byte", (x,), e)
+            else:
+                piece = x.args[0] if isinstance(x, App) and x.op == "bytearray" else x
+            self._rebind(e.func.value, App("bytearray", (mk_cat([recv.args[0], piece], e),), e), st)
+            return Const(None)
+        if isinstance(recv, App) and recv.op == "bytearray" and name in ("ljust", "rjust", "hex", "__len__"):
+            recv = recv.args[0]
         # functional updates of local containers
         if name in ("append", "extend", "update", "insert", "remove", "pop", "clear", "reverse", "sort"):
             t = App("meth:" + name, [recv] + args + self.kwterms(kwargs), e)
@@ -994,6 +1005,19 @@ class Evaluator:
                 return Const(bytes.fromhex(args[0].v))
             except Exception:
                 pass
+        if dotted == "bytearray" and len(args) <= 1 and not kwargs:
+            # a bytearray used as an accumulator of bytes: its content as a bytes term
+            if not args:
+                return App("bytearray", (Const(b""),), e)
+            a0 = args[0]
+            if isinstance(a0, App) and a0.op == "bytearray":
+                return a0
+            if isinstance(a0, Const) and isinstance(a0.v, (bytes, bytearray)):
+                return App("bytearray", (Const(bytes(a0.v)),), e)
+            if isinstance(a0, App) and a0.op in ("cat", "meth:to_bytes", "attr:bytes", "cbor", "byte", "repeat", "filebytes", "bytes", "meth:ljust", "slice", "hash"):
+                return App("bytearray", (a0,), e)
+        if dotted == "bytes" and len(args) == 1 and isinstance(args[0], App) and args[0].op == "bytearray":
+            return args[0].args[0]
         if dotted == "bytes":
             if not args:
                 return Const(b"")
@@ -1390,7 +1414,11 @@ class Evaluator:
         cur = self.eval_expr(s.target, st, fr) if not isinstance(s.target, ast.Name) else st.env.get(
             s.target.id, Sym("free:" + s.target.id))
         v = self.eval_expr(s.value, st, fr)
-        new = self.binop(type(s.op), cur, v, s)
+        if isinstance(cur, App) and cur.op == "bytearray" and isinstance(s.op, ast.Add):
+            piece = v.args[0] if isinstance(v, App) and v.op == "bytearray" else v
+            new = App("bytearray", (mk_cat([cur.args[0], piece], s),), s)
+        else:
+            new = self.binop(type(s.op), cur, v, s)
         self.bind_target(s.target, new, st, fr)
         return st, []
 
